@@ -5,7 +5,7 @@
     implementation's outcome. *)
 From V.Lib Require Import Base Hex.
 From V.Gen Require Import C11Consts.
-From V.C11 Require Import Model Spec Tab Eqb Legacy CorrLegacy Gap CorrGap.
+From V.C11 Require Import Model Spec Tab Eqb Legacy CorrLegacy Gap CorrGap Extra CorrExtra.
 Local Open Scope N_scope.
 
 (* ------------------------------------------------------------------------------------------ *)
@@ -39,18 +39,12 @@ Inductive case :=
 (* zcash_keys::encoding (legacy Sapling / transparent encodings) *)
 | CLegacy (l : lcase)
 (* gap_limits.rs *)
-| CGap (g : gcase).
+| CGap (g : gcase)
+(* unified-address decode path; viewing keys without `transparent-inputs` *)
+| CExtra (x : xcase).
 
 (* ------------------------------------------------------------------------------------------ *)
 (** * Model = implementation *)
-
-Definition with_reenc {K E} (enc : K -> outcome (bytes * bytes) unit) (o : outcome K E)
-  : outcome (K * (bytes * bytes)) E :=
-  match o with
-  | Ok k => match enc k with Ok e => Ok (k, e) | _ => Panic end
-  | Err e => Err e
-  | Panic => Panic
-  end.
 
 Definition model_addrs (O : oracles) (k : keylvl) (j : N) (r : request) : list addr_res :=
   match k with
@@ -99,6 +93,7 @@ Definition run_case (c : case) : bool :=
   | CCrypto _ ok => ok      (* the model of an observed clause is that it holds *)
   | CLegacy l => lrun l
   | CGap g => grun g
+  | CExtra x => xrun x
   end.
 
 (* ------------------------------------------------------------------------------------------ *)
@@ -112,16 +107,6 @@ Definition spec_uivk_of (O : oracles) (k : keylvl) : option uivk :=
   end.
 
 Definition levels (k : keylvl) : nat := match k with LUsk _ => 3 | LUfvk _ => 2 | LUivk _ => 1 end%nat.
-
-(** does a decoder of the table panic? ([usk_from_bytes_total] is relative to that) *)
-Definition tab_has_panic (t : otab) : bool :=
-  existsb (fun e => match e with (_, _, _, OPanic) => true | _ => false end) t.
-
-(** every component the decoders of this table accepted was in canonical form *)
-Definition tab_canonical (t : otab) : bool :=
-  forallb (fun e => match e with
-                    | (f, k, _, OSome b) => if 10 <=? f then bytes_eqb k b else true
-                    | _ => true end) t.
 
 Definition prop_case (c : case) : bool :=
   match c with
@@ -260,6 +245,7 @@ Definition prop_case (c : case) : bool :=
   | CCrypto _ ok => ok
   | CLegacy l => lprop l
   | CGap g => gprop g
+  | CExtra x => xprop x
   end.
 
 (** Known-finding classes: none. *)
@@ -328,4 +314,5 @@ Definition tag_case (c : case) : N :=
   | CCrypto kind ok => 3000 + 2 * kind + (if ok then 0 else 1)
   | CLegacy l => ltag l
   | CGap g => gtag g
+  | CExtra x => xtag x
   end.
